@@ -530,7 +530,71 @@ func (a *Analysis) onlyRunsParam(g *ssa.Function, idx, depth int) bool {
 	if refs == nil {
 		return true
 	}
+	// onlyCalled: every use of the function value v is a call of it
+	var onlyCalled func(v ssa.Value) bool
+	onlyCalled = func(v ssa.Value) bool {
+		rs := v.Referrers()
+		if rs == nil {
+			return true
+		}
+		for _, r := range *rs {
+			switch x := r.(type) {
+			case *ssa.DebugRef:
+			case ssa.CallInstruction:
+				if x.Common().Value != v {
+					return false
+				}
+			default:
+				return false
+			}
+		}
+		return true
+	}
 	for _, r := range *refs {
+		// the parameter is captured by a closure of g (go/ssa spills it into a cell first): the
+		// closure may only call it, and must itself run synchronously
+		if st, isSt := r.(*ssa.Store); isSt && st.Val == ssa.Value(par) {
+			cell, isCell := st.Addr.(*ssa.Alloc)
+			if !isCell {
+				return false
+			}
+			for _, cr := range *cell.Referrers() {
+				switch x := cr.(type) {
+				case *ssa.Store:
+					if x != st {
+						return false
+					}
+				case *ssa.DebugRef:
+				case *ssa.UnOp:
+					if !onlyCalled(x) {
+						return false
+					}
+				case *ssa.MakeClosure:
+					inner := x.Fn.(*ssa.Function)
+					for bi, bnd := range x.Bindings {
+						if bnd != ssa.Value(cell) || bi >= len(inner.FreeVars) {
+							continue
+						}
+						fvRefs := inner.FreeVars[bi].Referrers()
+						if fvRefs == nil {
+							continue
+						}
+						for _, fr := range *fvRefs {
+							ld, isLd := fr.(*ssa.UnOp)
+							if !isLd || !onlyCalled(ld) {
+								return false
+							}
+						}
+					}
+					if !a.onlySyncCallback(inner) {
+						return false
+					}
+				default:
+					return false
+				}
+			}
+			continue
+		}
 		ci, isCall := r.(*ssa.Call)
 		if !isCall {
 			if _, isDbg := r.(*ssa.DebugRef); isDbg {
